@@ -572,14 +572,6 @@ func (m *machine) exec(op Op) error {
 			}
 		}
 		late := mc.proxy != nil && pendingChain(mc.prom)
-		if late && !m.probe {
-			// KNOWN FINDING (see known_findings.json, C11 fulfill-vs-call-through-pipelined-client): a call through a
-			// pipelined client that arrives while its promise is in the pending-resolution state deadlocks the
-			// resolution.  Excluded by construction from the random search; the 'known-deadlock-probe' sub-check
-			// exercises exactly this history.
-			m.excluded++
-			return nil
-		}
 		c.held = !late && op.C%3 == 0 && (c.caller != nil || c.hook != nil)
 		if c.held {
 			c.open = true
@@ -976,8 +968,8 @@ func runProbe(c probeCase) (pbt.Result, error) {
 }
 
 var _ = pbt.Register(pbt.Spec[probeCase]{
-	Property: "C11", Name: "known-deadlock-probe",
-	Rule:     "fixed history: two pipelined clients X1, X2 of one answer; one call through each held in the pipeline caller; Fulfill (fulfils one client, waiting for its held call, the other is still a promise); a further call through each client during the pending resolution; the held calls return. Oracle: Fulfill and all calls return. This is the history the random search excludes by construction because it is a recorded known finding.",
+	Property: "C11", Name: "pending-resolution-probe",
+	Rule:     "fixed history: two pipelined clients X1, X2 of one answer; one call through each held in the pipeline caller; Fulfill (fulfils one client, waiting for its held call, the other is still a promise); a further call through each client during the pending resolution; the held calls return. Oracle: Fulfill and all calls return. Regression history of a repaired defect (calls through a pipelined client during the pending-resolution window deadlocked the resolution).",
 	Quick:    1, Thorough: 1,
 	Gen:      func(t *rapid.T) probeCase { return probeCase{Path: rapid.IntRange(0, 2).Draw(t, "path")} },
 	Run:      runProbe,
@@ -1036,8 +1028,14 @@ func runConc(c concCase) (pbt.Result, error) {
 					for _, f := range paths[path] {
 						fut = fut.Field(f, nil)
 					}
-					_ = fut.Client()
+					cl := fut.Client()
 					_ = fut.Client() // asking twice is harmless
+					// a call through the pipelined client, possibly while the resolver is at work
+					id := atomic.AddUint64(&callSeq, 1)
+					a, rel := cl.SendCall(context.Background(), capnp.Send{Method: capnp.Method{InterfaceID: id}})
+					_, err := a.Struct()
+					rel()
+					recs[g] = append(recs[g], rec{id, path, err})
 				default:
 					go func() { _, _ = p.Answer().Struct() }()
 				}
@@ -1143,7 +1141,7 @@ func runConc(c concCase) (pbt.Result, error) {
 
 var _ = pbt.Register(pbt.Spec[concCase]{
 	Property: "C11", Name: "concurrent",
-	Rule:     "2-5 goroutines issue PipelineSend calls, repeated Future.Client() requests and Struct() waiters on one answer while a resolver goroutine Fulfills / Rejects / Joins it (join of a resolved answer, or of an unresolved one fulfilled later), with Gosched injected at the library's yield points; race detector on. (Calls THROUGH pipelined clients during resolution are the recorded known finding and are left out.) Invariants: every call delivered exactly once - to a pipeline caller, or to the capability at its transform in the result - or fails only when the answer was rejected / the transform has no capability; nothing hangs; Done() closes; after ReleaseClients and message reset every capability is shut down exactly once. Non-trivial: >=2 caller goroutines.",
+	Rule:     "2-5 goroutines issue PipelineSend calls, repeated Future.Client() requests and Struct() waiters on one answer while a resolver goroutine Fulfills / Rejects / Joins it (join of a resolved answer, or of an unresolved one fulfilled later), with Gosched injected at the library's yield points; race detector on. Invariants: every call delivered exactly once - to a pipeline caller, or to the capability at its transform in the result - or fails only when the answer was rejected / the transform has no capability; nothing hangs; Done() closes; after ReleaseClients and message reset every capability is shut down exactly once. Non-trivial: >=2 caller goroutines.",
 	Quick:    1500, Thorough: 15000,
 	Gen: func(t *rapid.T) concCase {
 		return concCase{
